@@ -92,11 +92,20 @@ func vC19Workload(kind int) *vC19Conn {
 		vAssume(c.vs.sess.AuthenticatedSequenceNumbers.Inbound < 0xffffff00)
 		m1 := refBuildMsg(0x81, 0x07, 0, 0x20, 1, 0, 0x01, busy(0xC3, nil))
 		m2 := refBuildMsg(0x81, 0x07, 0, 0x20, 1, 0, 0x01, busy(0x00, vBytes(11)))
+		m3 := refBuildMsg(0x81, 0x07, 0, 0x20, 1, 0, 0x3C, busy(0x00, nil))
 		c.t.replies = [][]byte{
 			refSessionPacket(c.vs.sess.LocalID, 1, integ, c.vs.k1, c.vs.k2, vBytes(16), m1),
-			refSessionPacket(c.vs.sess.LocalID, 2, integ, c.vs.k1, c.vs.k2, vBytes(16), m2)}
+			refSessionPacket(c.vs.sess.LocalID, 2, integ, c.vs.k1, c.vs.k2, vBytes(16), m2),
+			refSessionPacket(c.vs.sess.LocalID, 3, integ, c.vs.k1, c.vs.k2, vBytes(16), m3)}
 		cmd := &ipmi.GetDeviceIDCmd{}
-		c.run = func() { c.code, c.err = c.vs.sess.SendCommand(context.Background(), cmd) }
+		c.want = 3
+		c.run = func() {
+			// a command, then the session is closed
+			c.code, c.err = c.vs.sess.SendCommand(context.Background(), cmd)
+			if c.err == nil {
+				c.err = c.vs.sess.Close(context.Background())
+			}
+		}
 	case 2:
 		// SDR repository walk over a prepared reference repository
 		repo := &refSDRRepo{records: vRecords(1, false), reservation: vU16(), lastAdd: vU32(), lastErase: vU32()}
